@@ -43,9 +43,7 @@ Predicted(t) ==
   CASE t.op = "leaf" -> t.path \in ModelPaths(t.kind)
     [] t.op = "dir"  -> \E q \in AllModelPaths : IsPrefix(t.path, q)
 
-ObsClass == IF out = "served" THEN "served"
-            ELSE IF out \in Rejects THEN "rejected"
-            ELSE out
+ObsClass == IF out \in {"reject_layer", "reject_dim", "reject_tile"} THEN "rejected" ELSE out
 
 DirSafe(p) == \E r \in {Root, LockRoot, ConfRoot} : Under(r, p) \/ IsPrefix(Norm(p), Norm(r))
 ObservedSafe(t) == IF t.op = "leaf" THEN Under(RootOf(t.kind), t.path) ELSE DirSafe(t.path)
